@@ -42,6 +42,11 @@ pub enum Ev {
     /// Copy-semantics check: a copy runs in lockstep for k events; another copy is fed `burst`
     /// at once while the original must stay unchanged.
     Fork { k: u8, burst: Vec<[u8; 3]> },
+    /// The host checkpoints all scanners (they are `Copy`) ...
+    Snapshot,
+    /// ... and later restores the checkpoint: "crash and restart from durable state". The clock
+    /// keeps running in between.
+    Restore,
 }
 
 #[derive(Clone, Debug, PartialEq, Eq, Hash)]
@@ -85,6 +90,8 @@ impl Ev {
             Ev::Poll { ch } => J::arr([J::s("poll"), ji(*ch)]),
             Ev::Adv { ns } => J::arr([J::s("adv"), J::Str(ns.to_string())]),
             Ev::Reset => J::arr([J::s("reset")]),
+            Ev::Snapshot => J::arr([J::s("snapshot")]),
+            Ev::Restore => J::arr([J::s("restore")]),
             Ev::Fork { k, burst } => J::arr([
                 J::s("fork"),
                 ji(*k),
@@ -139,6 +146,8 @@ impl Ev {
                 Ev::Adv { ns: (v as u128).min(DUR_MAX_NS) }
             }
             "reset" => Ev::Reset,
+            "snapshot" => Ev::Snapshot,
+            "restore" => Ev::Restore,
             "fork" => {
                 let mut burst = Vec::new();
                 for b in a.get(2).and_then(|x| x.as_arr()).ok_or("fork: burst")? {
@@ -226,6 +235,8 @@ impl Trace {
                     h.u128(*ns);
                 }
                 Ev::Reset => h.b(7),
+                Ev::Snapshot => h.b(9),
+                Ev::Restore => h.b(10),
                 Ev::Fork { k, burst } => {
                     h.b(8);
                     h.b(*k);
